@@ -288,6 +288,15 @@ pub fn dispatch(k: &str, t: &[&str]) -> Option<String> {
         "op_cast_u8_u32" => cast_case!(u8, u32, t),
         "op_cast_u16_u32" => cast_case!(u16, u32, t),
         "op_cast_u8_u16" => cast_case!(u8, u16, t),
+        "op_cast_i64_of64" => {
+            let mut sp = Scratchpad::new(3, HashMap::new());
+            sp.set(br::<i64>(0), vec_of::<i64>(t[0]));
+            let mut op = type_conversion::TypeConversionOperator::<i64, of64> { input: br(0), output: br(1) };
+            op.init(0, 16, &mut sp);
+            let res = op.execute(false, &mut sp);
+            let out: Vec<u64> = sp.get(br::<of64>(1)).iter().map(|x| x.to_bits()).collect();
+            Some(format!("{} {}", if res.is_err() { "err" } else { "ok" }, fmt_vec(&out)))
+        }
         "op_is_null" | "op_is_not_null" => {
             let n: usize = num(t[0]);
             let mut sp = Scratchpad::new(4, HashMap::new());
